@@ -90,6 +90,7 @@ def main(argv):
                                                                                            'mc': ['api', 'Acquire', ['Granted'], 'Relinquish']}}})
     # event names containing one another, in both declaration orders, either one configured as claim / release
     cases += SR.mc_name_containment_cases()[:2] if tier == 'quick' else SR.mc_name_containment_cases()
+    cases += SR.case_only_cases()[:1] if tier == 'quick' else SR.case_only_cases()
     suspects, breadth = SR.leg_a_suspects(rng, 60 if tier == 'quick' else 1000, want=lambda c: bool(c['cfg']['ports'].get('mc')))
     rep.extra['cases_compared_with_the_model_only'] = breadth
     cases += suspects
